@@ -5,6 +5,7 @@ import (
 	"go/token"
 	"go/types"
 	"os"
+	"strconv"
 	"strings"
 
 	"golang.org/x/tools/go/ssa"
@@ -256,6 +257,13 @@ func (x *Engine) inline(fr *Frame, st *State, callee *ssa.Function, args []Val, 
 		}
 		if nf.spec != nil && nf.spec.Unroll {
 			unroll = true
+		}
+	}
+	if nf.spec != nil {
+		for k := range nf.spec.Loops {
+			if n, err := strconv.Atoi(k); err == nil && n > len(nf.loops) {
+				x.degrade(fmt.Sprintf("the contract of the inlined %s has invariants for loop %d, the function has %d loop(s): loop structure changed since the contract was written", shortKey(nf.spec.Key), n, len(nf.loops)))
+			}
 		}
 	}
 	if unroll {
